@@ -60,6 +60,10 @@ type op struct {
 // not decide (set by the schedule, nil otherwise).
 var headerDonor *types.Block
 
+// lastVals: the validator set that signed the previous block, as the node the proposal is built for sees it (set by the
+// schedule before the operators run).
+var lastVals *types.ValidatorSet
+
 func ops() []op {
 	return []op{
 		{"chain-id", 1, func(t *rapid.T, b *types.Block, n *consim.Net) { b.ChainID = "evil-chain" }, 0, false},
@@ -111,6 +115,33 @@ func ops() []op {
 						pcs[i] = nil
 					}
 					kept++
+				}
+			}
+			b.LastCommit = &types.Commit{BlockID: b.LastCommit.BlockID, Precommits: pcs}
+			b.LastCommitHash = b.LastCommit.Hash()
+		}, 0, false},
+		{"last-commit-largest-below-quorum", 2, func(t *rapid.T, b *types.Block, n *consim.Net) {
+			// the most voting power a commit can carry without being MORE than two thirds: precommits are kept, in slot
+			// order, while their power stays <= floor(2T/3) (with T mod 3 == 2 that is one unit below the quorum, the case a
+			// threshold computed as T/3*2 lets through)
+			pcs := append([]*types.Vote(nil), b.LastCommit.Precommits...)
+			if lastVals == nil || lastVals.Size() != len(pcs) {
+				pcs = pcs[:0] // no view of the last validators: an empty commit is invalid as well
+			} else {
+				limit, sum := lastVals.TotalVotingPower()*2/3, int64(0)
+				for i := range pcs {
+					if pcs[i] == nil {
+						continue
+					}
+					_, v := lastVals.GetByIndex(i)
+					if sum+v.VotingPower <= limit {
+						sum += v.VotingPower
+					} else {
+						pcs[i] = nil
+					}
+				}
+				if sum == limit {
+					vstat.Label(fmt.Sprintf("last_commit_power_exactly_floor_two_thirds_total_mod3_%d", lastVals.TotalVotingPower()%3))
 				}
 			}
 			b.LastCommit = &types.Commit{BlockID: b.LastCommit.BlockID, Precommits: pcs}
@@ -467,6 +498,7 @@ func runProposer(t *rapid.T) {
 				if len(chosen) == 0 {
 					at = nil
 				} else {
+					lastVals = rs.LastValidators
 					if headerDonor = donorOf(rs.Height); headerDonor != nil && rapid.IntRange(0, 2).Draw(t, "usedonor") != 0 {
 						chosen = []op{table[len(table)-2]}
 						vstat.Label("proposal_over_validated_header")
